@@ -30,7 +30,14 @@ pub enum Step {
     /// remove the document and create it again: it must then behave like a fresh one (nothing of the old contents, no
     /// derived state left behind)
     RemoveAndRecreate,
+    /// a crowd: `CROWD_SIZES[class]` entries of one author under one key (`key || 'z' || i`, big-endian 16-bit `i`), offered
+    /// one after the other through the remote-insert path - so that a later insert or deletion at the key (or a prefix of
+    /// it) prunes hundreds or thousands of entries at once and must report exactly that count
+    Crowd { a: u16, k: u16, class: u8, t: u8 },
 }
+
+/// around the sizes at which a byte-sized counter, a two-byte length prefix or a chunked removal would show
+pub const CROWD_SIZES: [usize; 8] = [255, 256, 257, 1023, 1024, 1025, 2047, 2049];
 
 #[derive(Serialize, Deserialize, Clone, Debug)]
 pub struct History {
@@ -96,7 +103,16 @@ impl Prop for C02 {
                 (Just(pools), Just(entries), vec(order, 4))
             })
             .prop_map(|(pools, entries, orders)| Case::Perm(PermCase { pools, entries, orders }));
-        prop_oneof![2 => hist, 1 => perm].boxed()
+        // rare: a history with one crowd step somewhere, followed by at least a few more steps (which may prune the crowd)
+        let crowd = (pools(8), vec(step(), 3..=12), any::<u16>(), (any::<u16>(), any::<u16>(), 0u8..8, 0u8..8), prop::bool::weighted(0.5), prop::bool::weighted(0.2))
+            .prop_map(|(pools, mut steps, pos, (a, k, class, t), sparse_observe, file)| {
+                let at = idx(pos, steps.len());
+                steps.insert(at, Step::Crowd { a, k, class, t });
+                // make sure something is offered at the crowd's own key afterwards (an insert or a deletion, any timestamp)
+                steps.push(Step::Delete { a, k, now: 7 - (t % 4) });
+                Case::History(History { file, pools, steps, sparse_observe })
+            });
+        prop_oneof![200 => hist, 100 => perm, 1 => crowd].boxed()
     }
 
     fn check(ctx: &mut Ctx, case: &Case) -> Outcome {
@@ -156,6 +172,34 @@ fn check_history(ctx: &mut Ctx, h: &History) -> Outcome {
                 Remote,
             }
             let (entry, path) = match s {
+                Step::Crowd { a, k, class, t } => {
+                    let n = CROWD_SIZES[*class as usize % CROWD_SIZES.len()];
+                    o.class("history/crowd(255..2049-entries-under-one-key)");
+                    let base = keys[idx(*k, keys.len())].clone();
+                    let a = authors[idx(*a, authors.len())];
+                    let mut r = es(st.store.open_replica(&ns))?;
+                    for j in 0..n {
+                        let mut key = base.clone();
+                        key.extend_from_slice(&[b'z', (j >> 8) as u8, j as u8]);
+                        let e = sign(&nssec, &ESpec { a, k: key, t: T0 + *t as u64, c: 1 });
+                        let expect = model.apply(&e);
+                        let got = match ctx.rt.block_on(r.insert_remote_entry(e.clone(), [7u8; 32], ContentStatus::Missing)) {
+                            Ok(n) => Some(n),
+                            Err(InsertError::NewerEntryExists) => None,
+                            Err(e) => return Err(format!("crowd insert: {e:?}")),
+                        };
+                        if got != expect {
+                            o.fail("C02/step-result", format!("step {i}, entry {j} of a crowd of {n}: offering {}: code returned {:?}, model {:?}", describe(&e), got, expect));
+                            break;
+                        }
+                    }
+                    drop(r);
+                    st.store.close_replica(ns);
+                    if o.failed() {
+                        break;
+                    }
+                    continue;
+                }
                 Step::Insert { a, k, c, now } => {
                     let spec = ESpec { a: authors[idx(*a, authors.len())], k: keys[idx(*k, keys.len())].clone(), t: T0 + *now as u64, c: *c };
                     (sign(&nssec, &spec), Path::Local)
@@ -230,6 +274,10 @@ fn check_history(ctx: &mut Ctx, h: &History) -> Outcome {
                 o.nontrivial = true;
             } else if expect.unwrap() > 0 {
                 o.class("pruning-insert");
+                if expect.unwrap() >= 255 {
+                    o.class("pruning-insert/removes>=255-entries-at-once");
+                    o.nontrivial = true;
+                }
             }
             if offered.contains(&entry) {
                 o.class("duplicate-offer");
